@@ -15,6 +15,10 @@ package announcer
 // The announcementMessage goes through the real Marshal, gets the wire sender
 // index, and is decoded by the unmarshaler RegisterUnmarshaller registers.
 // No timing assumption decides anything: all waits are on channels.
+//
+// Streams (AdmissionLoop.tla): sequences of 1..3 announcements are delivered to
+// one Announce call and the returned ready list is compared with the specified
+// set.
 
 import (
 	"context"
@@ -62,11 +66,9 @@ func TestVerif_C12_Announcer(t *testing.T) {
 		ready []group.MemberIndex
 		err   error
 	}
-	drive := func(c *verifadm.Case, typ string) (string, string, error) {
-		p, err := payload(c, typ)
-		if o, d, e, stop := verifadm.Dropped(err); stop {
-			return o, d, e
-		}
+	// announce runs the real Announce for member recv, delivers the messages in order once
+	// the announcer listens, and returns its ready list after cancellation.
+	announce := func(recv int, msgs []net.Message) ([]group.MemberIndex, error, error) {
 		ch := verifadm.NewChannel()
 		sent := make(chan struct{}, 1)
 		ch.OnSend = func(net.TaggedMarshaler) {
@@ -86,37 +88,50 @@ func TestVerif_C12_Announcer(t *testing.T) {
 					res.err = fmt.Errorf("panic: %v", r)
 				}
 			}()
-			res.ready, res.err = New(c12ProtocolOK, ch, validator).Announce(ctx, group.MemberIndex(c.Recv), verifadm.SessionOK)
+			res.ready, res.err = New(c12ProtocolOK, ch, validator).Announce(ctx, group.MemberIndex(recv), verifadm.SessionOK)
 		}()
 		select {
 		case <-sent:
 		case <-done:
-			return "", "", fmt.Errorf("harness: Announce returned before announcing: %v", res.err)
+			return nil, nil, fmt.Errorf("harness: Announce returned before announcing: %v", res.err)
 		case <-time.After(120 * time.Second):
-			return "", "", fmt.Errorf("harness: Announce did not send its announcement")
+			return nil, nil, fmt.Errorf("harness: Announce did not send its announcement")
 		}
 		if ch.Handlers() != 1 {
-			return "", "", fmt.Errorf("harness: %d receive handlers registered", ch.Handlers())
+			return nil, nil, fmt.Errorf("harness: %d receive handlers registered", ch.Handlers())
 		}
-		ch.Deliver(w.Net(c, p))
+		for _, m := range msgs {
+			ch.Deliver(m)
+		}
 		if !ch.Barrier(w, done) {
-			return "", "", fmt.Errorf("harness: the announce loop did not reach the barrier message")
+			return nil, nil, fmt.Errorf("harness: the announce loop did not reach the barrier message")
 		}
 		cancel()
 		select {
 		case <-done:
 		case <-time.After(120 * time.Second):
-			return "", "", fmt.Errorf("harness: Announce did not return after cancellation")
+			return nil, nil, fmt.Errorf("harness: Announce did not return after cancellation")
 		}
-		if res.err != nil {
-			return "panic", res.err.Error(), nil
+		return res.ready, res.err, nil
+	}
+	drive := func(c *verifadm.Case, typ string) (string, string, error) {
+		p, err := payload(c, typ)
+		if o, d, e, stop := verifadm.Dropped(err); stop {
+			return o, d, e
+		}
+		ready, perr, herr := announce(c.Recv, []net.Message{w.Net(c, p)})
+		if herr != nil {
+			return "", "", herr
+		}
+		if perr != nil {
+			return "panic", perr.Error(), nil
 		}
 		claimed := group.MemberIndex(c.Wire) // decodable, so the value fits
 		self := group.MemberIndex(c.Recv)
 		hasSelf, hasClaimed, extra := false, false, []group.MemberIndex{}
-		for i, m := range res.ready {
-			if i > 0 && res.ready[i-1] >= m {
-				return "corrupted", fmt.Sprintf("ready list %v is not strictly ascending", res.ready), nil
+		for i, m := range ready {
+			if i > 0 && ready[i-1] >= m {
+				return "corrupted", fmt.Sprintf("ready list %v is not strictly ascending", ready), nil
 			}
 			switch m {
 			case self:
@@ -128,12 +143,43 @@ func TestVerif_C12_Announcer(t *testing.T) {
 			}
 		}
 		if !hasSelf || len(extra) > 0 {
-			return "corrupted", fmt.Sprintf("ready list %v (receiver %d, claimed %d)", res.ready, self, claimed), nil
+			return "corrupted", fmt.Sprintf("ready list %v (receiver %d, claimed %d)", ready, self, claimed), nil
 		}
 		if hasClaimed {
-			return verifadm.Accepted, fmt.Sprintf("ready list %v", res.ready), nil
+			return verifadm.Accepted, fmt.Sprintf("ready list %v", ready), nil
 		}
-		return verifadm.Ignored, fmt.Sprintf("ready list %v", res.ready), nil
+		return verifadm.Ignored, fmt.Sprintf("ready list %v", ready), nil
 	}
 	verifadm.Run(t, rep, w, steps, cases, map[string]verifadm.Driver{"Announcer.Announce": drive})
+
+	// streams of messages (specs/Admission/AdmissionLoop.tla): the ready list after 1..3 announcements
+	verifadm.RunSequences(t, rep, "pkg/protocol/announcer/Announcer.Announce", func(q *verifadm.Sequence) (verifadm.LoopState, string, error) {
+		var out verifadm.LoopState
+		var msgs []net.Message
+		for _, c := range q.Msgs {
+			p, err := payload(c, "announcementMessage")
+			if _, _, e, stop := verifadm.Dropped(err); stop {
+				if e != nil {
+					return out, "", e
+				}
+				continue // dropped by the decoder
+			}
+			msgs = append(msgs, w.Net(c, p))
+		}
+		ready, perr, herr := announce(q.Msgs[0].Recv, msgs)
+		if herr != nil {
+			return out, "", herr
+		}
+		if perr != nil {
+			return verifadm.LoopState{Returned: -1}, perr.Error(), nil
+		}
+		note := ""
+		for i, m := range ready {
+			if i > 0 && ready[i-1] >= m {
+				note = fmt.Sprintf("ready list %v is not strictly ascending", ready)
+			}
+			out.Ready = append(out.Ready, int(m))
+		}
+		return out, note, nil
+	})
 }
